@@ -1224,3 +1224,97 @@ Qed.
 Lemma default_recovery_child :
   recover_default 7 [(100, 1, 7); (105, 2, 7)] = Some 2.
 Proof. vm_compute. reflexivity. Qed.
+
+(* ------------------------------------------------------------------ cut points through the caches *)
+Lemma ckpt_cache_some me mb mt comp full l r :
+  valid_log l = true -> log_lens_pos l = true -> CompFaithful l comp full ->
+  latest_ckpt_cache me mb comp full mt = CkSome r -> r = latest_ckpt mt None l.
+Proof.
+  intros Hv Hp Hcf. unfold latest_ckpt_cache.
+  assert (Hfile : forall ls, ls = comp_projection l ->
+            match scan_back me mb ls with
+            | STail fs_rev cpl => if cpl then CkSome (latest_ckpt mt None fs_rev) else CkErr
+            | _ => CkErr
+            end = CkSome r -> r = latest_ckpt mt None l).
+  { intros ls -> H. destruct (scan_back me mb (comp_projection l)) as [| |fs_rev cpl] eqn:Es; try discriminate.
+    destruct cpl; [|discriminate]. inversion H. apply (ckpt_projection_scan me mb mt l fs_rev Hv Hp Es). }
+  destruct comp as [ls|]; cbn [CompFaithful] in Hcf.
+  - cbv iota beta. apply Hfile. exact Hcf.
+  - destruct full as [fl|]; [|discriminate].
+    unfold header_project. destruct (all_good fl) as [fs|] eqn:Eg; cbn [option_map]; [|discriminate].
+    rewrite (Hcf fs eq_refl).
+    destruct (comp_projection l) as [|x rr] eqn:Ec; [discriminate|]. cbv iota beta.
+    apply Hfile. reflexivity.
+Qed.
+
+Lemma latest_none_of_empty_projection mt l : comp_projection l = [] -> latest_ckpt mt None l = None.
+Proof.
+  intros H. rewrite <- latest_ckpt_filter. unfold comp_projection in H.
+  destruct (filter is_checkpoint l); [reflexivity | discriminate].
+Qed.
+
+(* "no file" is answered only when there is no checkpoint to find, or nothing to build it from *)
+Lemma ckpt_cache_none mt me mb comp full l :
+  CompFaithful l comp full -> latest_ckpt_cache me mb comp full mt = CkNone ->
+  full = None \/ latest_ckpt mt None l = None.
+Proof.
+  intros Hcf. unfold latest_ckpt_cache.
+  destruct comp as [ls|]; cbn [CompFaithful] in Hcf.
+  - cbv iota beta. destruct (scan_back me mb ls) as [| |fs_rev cpl]; try discriminate. destruct cpl; discriminate.
+  - destruct full as [fl|]; [|left; reflexivity].
+    unfold header_project. destruct (all_good fl) as [fs|] eqn:Eg; cbn [option_map]; [|discriminate].
+    rewrite (Hcf fs eq_refl).
+    destruct (comp_projection l) as [|x rr] eqn:Ec.
+    + intros _. right. apply latest_none_of_empty_projection. exact Ec.
+    + cbv iota beta. destruct (scan_back me mb (x :: rr)) as [| |fs_rev cpl]; try discriminate. destruct cpl; discriminate.
+Qed.
+
+Lemma ckpt_lookup_faithful me mb comp full l rp mt :
+  valid_log l = true -> log_lens_pos l = true -> FullFaithful l full -> CompFaithful l comp full ->
+  fst (ckpt_lookup me mb comp full l rp mt) = latest_ckpt mt None l.
+Proof.
+  intros Hv Hp Hff Hcf. unfold ckpt_lookup. rewrite (replay_faithful l full Hv Hff).
+  destruct (latest_ckpt_cache me mb comp full mt) as [| |r] eqn:Ec.
+  - (* CkNone *)
+    destruct rp; [reflexivity|].
+    destruct (full_has_last full) eqn:Eh; [|reflexivity]. cbn [fst].
+    destruct (ckpt_cache_none mt me mb comp full l Hcf Ec) as [Hn|Hn]; [subst full; discriminate | symmetry; exact Hn].
+  - reflexivity.
+  - pose proof (ckpt_cache_some me mb mt comp full l r Hv Hp Hcf Ec) as Hr.
+    destruct r as [f|]; [cbn [fst]; exact Hr|].
+    destruct rp; [reflexivity|].
+    destruct (full_has_last full); [cbn [fst]; exact Hr | reflexivity].
+Qed.
+
+Lemma cut_point_at_mk l ordinal m :
+  nth_error (messages l) (N.to_nat (ordinal - 1)) = Some m ->
+  cut_point_at l ordinal = Some (mk_cut_point ordinal m (latest_ckpt (fseq m) None l)).
+Proof. intros H. unfold cut_point_at. rewrite H. reflexivity. Qed.
+
+Theorem cut_points_fast_eq_truth me mb comp full l stride limit :
+  valid_log l = true -> log_lens_pos l = true -> FullFaithful l full -> CompFaithful l comp full ->
+  cut_points_fast me mb comp full l stride limit = cut_points_truth l stride limit.
+Proof.
+  intros Hv Hp Hff Hcf. unfold cut_points_fast, cut_points_truth. f_equal.
+  destruct ((nlen (messages l) / stride * stride) =? 0); [reflexivity|].
+  generalize (N.to_nat (clamp_limit limit)) as n. generalize 0 as i. generalize false as rp.
+  intros rp i n. revert rp i. induction n as [|n IH]; intros rp i; [reflexivity|].
+  cbn [cut_points_fast_from cut_points_from].
+  destruct (nlen (messages l) / stride * stride - i * stride =? 0); [reflexivity|].
+  destruct (nth_error (messages l) (N.to_nat (nlen (messages l) / stride * stride - i * stride - 1))) as [m|] eqn:En.
+  - rewrite (cut_point_at_mk l _ m En).
+    pose proof (ckpt_lookup_faithful me mb comp full l rp (fseq m) Hv Hp Hff Hcf) as Hb.
+    destruct (ckpt_lookup me mb comp full l rp (fseq m)) as [best rp']. cbn [fst] in Hb. subst best.
+    f_equal. apply IH.
+  - unfold cut_point_at. rewrite En. apply IH.
+Qed.
+
+(* K2 changes cut points too (S4: the probe of DESIGN §0) *)
+Lemma K2_changes_cut_points :
+  snd (cut_points_fast 100 1000 (Some [LGood (wck 4 1)]) (Some (project_full wlog3)) wlog3 1 2)
+    = [ {| cp_ordinal := 2; cp_to_seq := 2; cp_already := false; cp_latest := None |};
+        {| cp_ordinal := 1; cp_to_seq := 1; cp_already := true; cp_latest := Some 4 |} ]
+  /\ snd (cut_points_truth wlog3 1 2)
+    = [ {| cp_ordinal := 2; cp_to_seq := 2; cp_already := true; cp_latest := Some 3 |};
+        {| cp_ordinal := 1; cp_to_seq := 1; cp_already := true; cp_latest := Some 4 |} ].
+Proof. split; vm_compute; reflexivity. Qed.
